@@ -1,4 +1,5 @@
 import Sozu.Answers.Lemmas
+import Sozu.Answers.Routing
 /-
 C02 — "every received request gets exactly one well-formed answer".
 Only the property theorems (`C02_*`) and their non-vacuity examples live here;
@@ -50,6 +51,42 @@ theorem C02_default_status_from_table (cfg : Cfg) (es : List Ev) (n : Nat) (a : 
 
 example : (run {} Stream.init [.reqParsed true, .connect (.err .noCluster)]).outcome
     = some (.default 404 false) := by decide
+
+/-! ### precedence of the routing outcomes -/
+
+/-- The routing outcome in front of a backend connection, exactly as coded: a certificate
+    mismatch is answered 421 before anything else; then a malformed authority (400), no
+    matching frontend (404); a frontend redirect policy (301/302/308) wins over denial,
+    credentials and limits; denial (policy or no cluster) and missing/wrong credentials
+    give 401 before the legacy cluster redirect (301) and before the per-IP limit, so a
+    request that is redirected or denied never counts against — nor is refused by — the
+    limit (429 only for a request that would otherwise be forwarded). -/
+theorem C02_routing_precedence (r : RouteIn) :
+    (r.sniMismatch = true → routeDecision r = some .sniMismatch) ∧
+    (r.sniMismatch = false → r.hostMalformed = true → routeDecision r = some .hostParse) ∧
+    (r.sniMismatch = false → r.hostMalformed = false → r.frontFound = false →
+        routeDecision r = some .noCluster) ∧
+    (∀ n, r.sniMismatch = false → r.hostMalformed = false → r.frontFound = true →
+        r.redirect = some n → routeDecision r = some (.redirect (some n))) ∧
+    (routeDecision r = some .perIpLimit ↔
+        (r.sniMismatch = false ∧ r.hostMalformed = false ∧ r.frontFound = true ∧ r.redirect = none ∧
+         r.unauthorizedPolicy = false ∧ r.hasCluster = true ∧ (r.requiredAuth = true → r.authOk = true) ∧
+         r.legacyHttpsRedirect = false ∧ r.atIpLimit = true)) ∧
+    (routeDecision r = none ↔
+        (r.sniMismatch = false ∧ r.hostMalformed = false ∧ r.frontFound = true ∧ r.redirect = none ∧
+         r.unauthorizedPolicy = false ∧ r.hasCluster = true ∧ (r.requiredAuth = true → r.authOk = true) ∧
+         r.legacyHttpsRedirect = false ∧ r.atIpLimit = false)) ∧
+    (∀ c, routeDecision r = some c → statusOf c ∈ [421, 400, 404, 401, 429, 301] ∨
+        ∃ n, r.redirect = some n ∧ statusOf c = n) :=
+  routing_precedence r
+
+example : routeDecision { requiredAuth := true, authOk := false, atIpLimit := true } = some .unauthorized := by
+  decide
+example : routeDecision { redirect := some 308, requiredAuth := true, hasCluster := false } =
+    some (.redirect (some 308)) := by decide
+example : routeDecision { requiredAuth := true, authOk := true, atIpLimit := true } = some .perIpLimit := by
+  decide
+example : routeDecision {} = none := by decide
 
 /-! ### exactly one outcome — whole sessions, arbitrary histories -/
 
